@@ -61,5 +61,7 @@ def main(tier):
         print(("ok  " if ok else "DIFF"), engine, plan.get("property"), plan["seed"], digests if not ok else list(digests.values())[0],
               f"({len(digests)} runs)", flush=True)
         bad += 0 if ok else 1
-    print(f"selftest: {len(jobs)} plans, {bad} with differing digests, {time.monotonic() - t0:.0f}s")
+    from checks import lock_fidelity
+    bad += lock_fidelity.main()
+    print(f"selftest: {len(jobs)} plans, {bad} with differing digests or lock-model mismatches, {time.monotonic() - t0:.0f}s")
     return 3 if bad else 0
